@@ -64,6 +64,55 @@ CHECKS['C13'] = {
     'explanation': 'Known findings are matched by structural key (symptom + whether producer and consumer both modified the queue byte of the affected characteristic).',
 }
 
+_PDU = {'harness': 'pdu_sim', 'binary': 'pdu_sim'}
+CHECKS['C15'] = {
+    'harnesses': [_PDU],
+    'technique': 'deterministic simulation: seeded traffic and air-fault sequences between the real PDU buffer and a reference central ARQ',
+    'design_ref': 'DESIGN.md 4.3, 6 (C15)',
+    'level_text': 'Seeded search over traffic (both directions, all LLIDs, empty PDUs, size changes, lagging upper layer, stop, reset) and air faults attached to each packet exchange '
+                  '(loss / CRC error in either direction, MIC error) on ll_data_pdu_buffer for 10 buffer/layout configurations. Oracles: deliveries to the upper layer equal the '
+                  'central\'s sent sequence, in order, once; nothing is acknowledged that was not accepted (incl. full buffer); the central receives exactly the committed PDUs in order; '
+                  'a transmit PDU is released only after the central has it; after faults stop everything is delivered within a bounded number of exchanges. Sampling, not proof.',
+    'level_note': 'trusted: the reference central and the re-statement of the nRF52 receive decision table in harness/pdu_sim.cpp; the central honours max_rx_size',
+    'assumptions': ['the central never sends a PDU larger than the current max_rx_size', 'one packet pair per exchange (the nRF52 binding clears MD)'],
+    'explanation': 'Known finding: an empty ring whose pointers sit in the middle cannot allocate a maximum-size PDU when the ring is smaller than two of them; the link then stalls (see known_findings.json).',
+}
+CHECKS['C16'] = {
+    'harnesses': [_PDU],
+    'technique': 'deterministic simulation: seeded loss/retransmission patterns, packet-counter calls compared with the reference central nonce sequence',
+    'design_ref': 'DESIGN.md 4.3, 6 (C16)',
+    'level_text': 'Same simulated world as C15. The radio stub records increment_receive/transmit_packet_counter calls; the MIC verdict of every non-empty PDU is computed from the two '
+                  'sides\' counters as CCM would. Oracles: the receive counter advances by exactly one for a new non-empty PDU and not otherwise; every new non-empty PDU accepted by the '
+                  'central was sent with the counter value the central expects; final counters equal the number of non-empty PDUs moved. Sampling, not proof.',
+    'level_note': 'trusted: reference central; counter::increment in nrf52.cpp (the 39-bit register arithmetic) is not executed',
+    'assumptions': ['nonce = direction bit + packet counter; empty PDUs carry no MIC'],
+    'explanation': '',
+}
+CHECKS['C17'] = {
+    'harnesses': [_PDU],
+    'technique': 'deterministic simulation: MIC failures injected at seeded positions of a PDU stream with loss and retransmission',
+    'design_ref': 'DESIGN.md 4.3, 6 (C17)',
+    'level_text': 'Same simulated world as C15 with MIC faults biased up. A PDU that reached the buffer only through acknowledge() while its sequence number was new must never be '
+                  'acknowledged (NESN advanced) - the central must still hold it; retransmissions of already delivered PDUs, which fail the MIC because the counter moved on, may be. Sampling, not proof.',
+    'level_note': 'trusted: reference central; the decision "valid CRC and invalid MIC -> acknowledge()" is re-stated from nrf52.hpp, not executed from it (stack_sim/R2 executes the real one)',
+    'assumptions': ['MIC verdict of a retransmission follows from the packet counters'],
+    'explanation': '',
+}
+
+CHECKS['C19'] = {
+    'harnesses': [{'harness': 'sdu_sim', 'binary': 'sdu_sim'}],
+    'technique': 'deterministic simulation: seeded well-formed, malformed and interleaved fragment streams from a simulated central against a reassembly/fragmentation reference model, under ASan',
+    'design_ref': 'DESIGN.md 4.3, 6 (C19)',
+    'level_text': 'Seeded search over fragment streams a (possibly malicious) central can send (start/continuation/control PDUs of any length and any announced L2CAP length, repeated and missing starts, '
+                  'over-long continuations) interleaved with outgoing SDUs of 0..MTU bytes, control PDUs, a busy transmit ring and maximum-PDU-size changes, for 9 (buffer, layout, MTU) configurations. '
+                  'Oracles: the reassembly state never reaches or announces a position behind its buffer and polling never changes the idle transmit buffer (intra-object overflow ASan cannot see), '
+                  'every delivered frame is one start fragment followed by its continuations with the announced length, outgoing fragments are one start plus continuations within the maximum size that '
+                  'concatenate to the SDU, and no accepted SDU is lost. Sampling, not proof.',
+    'level_note': 'trusted: the matching model in harness/sdu_sim.cpp; private members of ll_l2cap_sdu_buffer are read (not written) through an access-specifier macro in the harness translation unit; perfect air (loss is C15)',
+    'assumptions': ['maximum PDU sizes are kept at or below half of the ring (ring stall is a C15 known finding)', 'the MTU-23 specialisation passes PDUs through unchanged (no reassembly state)'],
+    'explanation': 'A sanitizer abort counts as a violation for this property.',
+}
+
 # properties that are deliberately not decided by simulation (see DESIGN.md section 7)
 NOT_APPLICABLE = {
     'C04': 'compile-time mapping of the declaration to handles: no schedule, clock, fault or history can influence it (DESIGN.md 7); mapping errors still surface under C02/C03, whose model has an independent handle table',
